@@ -145,7 +145,18 @@ def check_case(ctx, case):
     nested = arr.tolist()
     shape = tuple(case["shape"])
     factors = tuple(case["factors"])
-    ds = get_downscaler(case)
+    try:
+        ds = get_downscaler(case)
+    except ValueError:
+        o = case["outside"]
+        dt = np.dtype(case["dtype"])
+        if o is not None and dt.kind in "iu" and not (
+                np.iinfo(dt).min <= o <= np.iinfo(dt).max):
+            # an outside value that the data type cannot hold is refused:
+            # nothing is claimed about such an option set
+            ctx.count("refused_outside_value_beyond_type_range")
+            return False
+        raise
     before = arr.tobytes()
     try:
         with np.errstate(all="ignore"):
